@@ -96,6 +96,8 @@ def history_case(arg):
         snaps = []
         try:
             mod.run_history(mon, base, "x", steps, names, inner, snapshots_out=snaps)
+        except vp.ExecutorDied:
+            snaps.append({b"<process died>": ("?",)})
         finally:
             mon.close()
         runs.append(snaps)
@@ -171,10 +173,8 @@ def run(tier, seed, work):
     nh = 600 if tier == "quick" else 4000
     np_ = 600 if tier == "quick" else 4000
     args = [("c01", i, seed, work) for i in range(nh // 2)] + [("c02", i, seed, work) for i in range(nh // 2)] + [("phase", i, seed, work) for i in range(np_)]
-    import multiprocessing as mp
-    with mp.get_context("fork").Pool(vp.NCPU) as pool:
-        for d in pool.imap_unordered(both, args, chunksize=4):
-            res.merge(d)
+    for d in vp.pimap(both, args, chunksize=4):
+        res.merge(d)
     res.rule = ("evaluations = scenarios executed in three fresh processes under three different work-dir roots and compared byte for byte after every step. distinct_nontrivial = distinct scenarios "
                 "whose outputs contain at least one TOML table with >=6 lines (wide tables: 12-key metadata/store tables, 12 labels with duplicated keys, 8 provides/requires per or-group, 8 per-process env dirs)")
     res.assumptions = ["each run is a fresh OS process, so std's RandomState is re-seeded; work-dir roots differ in length and depth; absolute paths never occur inside generated values"]
